@@ -120,7 +120,37 @@ def run(name, tier, checks):
     return 0
 
 
+def table():
+    """markdown table of the stored changes and what the checks reported on them (for DESIGN.md section 12.5)"""
+    rows = []
+    for name in sorted(os.listdir(SEEDED)):
+        mp = os.path.join(SEEDED, name, "meta.json")
+        if not os.path.exists(mp):
+            continue
+        m = json.load(open(mp))
+        det = m.get("detection", {})
+        cells = []
+        for k in sorted(det):
+            d = det[k]
+            if "error" in d:
+                cells.append("%s: %s" % (k, d["error"]))
+            else:
+                first = d.get("first", "")
+                sig = first.split("sig:")[-1].strip() if "sig:" in first else ""
+                cells.append("%s: %s%s" % (k, "**caught**" if d.get("exit") == 1 else ("missed" if d.get("exit") == 0 else "exit %s" % d.get("exit")),
+                                           (" (`%s`)" % sig[:70].replace("|", "¦")) if sig and d.get("exit") == 1 else ""))
+        needs = " ".join(m.get("needs_to_manifest", "").split())[:170].replace("|", "¦")
+        hist = m.get("history", "")
+        rows.append("| %s | %s | %s | %s%s |" % (name, m.get("property"), needs, "; ".join(cells) or "not run", (" — " + hist) if hist else ""))
+    print("| change | property | needs, to manifest | owning check, quick tier |")
+    print("|--------|----------|--------------------|--------------------------|")
+    print("\n".join(rows))
+
+
 if __name__ == "__main__":
+    if sys.argv[1] == "table":
+        table()
+        sys.exit(0)
     if sys.argv[1] == "verify":
         sys.exit(verify(sys.argv[2], sys.argv[3], sys.argv[4], sys.argv[5:]))
     if sys.argv[1] == "run":
